@@ -140,6 +140,15 @@ func genC15(t *rapid.T) c15Case {
 		}
 		p.Validations = append(p.Validations, m.Validation{Name: names[i], Level: pick(t, []string{"violation", "warning", "info"}, "level"), Class: class, Body: g.bounded(40), Message: pick(t, msgs, "msg")})
 	}
+	// names that are listed but not defined (ignored by the language) take part in the level-list permutations
+	if rapid.Bool().Draw(t, "undefinedNames") {
+		p.Undefined = map[string][]string{}
+		for _, l := range []string{"violation", "warning", "info"} {
+			if rapid.Bool().Draw(t, "undef-"+l) {
+				p.Undefined[l] = []string{"retired-" + l}
+			}
+		}
+	}
 	for _, v := range p.Validations {
 		v.Body.MarkPolarity(m.Pos)
 	}
